@@ -61,7 +61,7 @@
 (*                                         printing: a stuttering step,    *)
 (*                                         admitted by [][Next]_vars.      *)
 (***************************************************************************)
-EXTENDS Naturals, FiniteSets, Sequences
+EXTENDS Integers, FiniteSets, Sequences
 
 (*
   @typeAlias: id = <<Str, Int, Int>>;
@@ -121,8 +121,14 @@ ConstOK ==
     /\ "" \notin Names
     /\ \A s \in IdSets : s # {} /\ s \subseteq Ident
     /\ DOMAIN Flags = Names
+    /\ \A n \in Names : Flags[n] \subseteq BOOLEAN \X BOOLEAN
     /\ NoId \notin Ident /\ NoId \notin LeaseMacs
     /\ \A cs \in Configs : \A i \in DOMAIN cs : WellFormed(cs[i])
+
+\* A configuration file is a SEQUENCE of clients.  (Given by the type
+\* annotation for Apalache; an explicit hypothesis of the TLAPS proof;
+\* checked by TLC as an ASSUME of ClientsRefA/B.)
+ConfigsAreSequences == \A cs \in Configs : DOMAIN cs \subseteq Int
 
 \* ----------------------------------------------------------- ClientsCore
 \* (same definitions as in ClientsCore.tla, typed)
